@@ -57,6 +57,12 @@ def conditions(fn, pv, bb, _depth=0):
         c = edge_condition(fn, pv, d, cands[0])
         if c is not None:
             out.append(c)
+            if _depth < 3 and c[0][0] == "discr":
+                # the variant of a Result / Option that has several definitions (the joined exits of an inlined helper - a check
+                # moved into `fn ensure_x(..) -> Result<()>`): the conditions under which it became the variant this edge requires
+                for c2 in reversed(_materialised_variant(fn, pv, d, cands[0], _depth)):
+                    if c2 not in out:
+                        out.append(c2)
         elif _depth < 3:
             # a boolean materialised on the way (`matches!(..)`, `let ok = a || b; if ok`): the conditions under
             # which it received the value this edge requires
@@ -69,6 +75,90 @@ def conditions(fn, pv, bb, _depth=0):
         if c not in seen:
             seen.append(c)
     return seen
+
+
+_SUCCESS = {"Continue", "Ok", "Some"}
+_FAILURE = {"Break", "Err", "None"}
+
+
+def _materialised_variant(fn, pv, d, s, depth):
+    from .facts import callee_path
+    from .prov import always_err_fn
+    t = fn.blocks[d]["term"]
+    op = t["op"]
+    if op["k"] not in ("copy", "move") or op["place"]["p"]:
+        return []
+    if pv._defs is None:
+        pv._collect_defs()
+    ds = pv.reaching(op["place"]["l"], d, "term")
+    if len(ds) != 1 or -1 in ds:
+        return []
+    _, sbb, sidx, sp = pv._defs[next(iter(ds))]
+    if sidx == "term" or sp["k"] != "discr" or sp["place"]["p"]:
+        return []
+    subj = sp["place"]["l"]
+    ty = fn.local_ty(subj) or ""
+    if ty.startswith("core::ops::control_flow::ControlFlow<"):
+        names = {0: "Continue", 1: "Break"}
+    elif ty.startswith("core::result::Result<"):
+        names = {0: "Ok", 1: "Err"}
+    elif ty.startswith("core::option::Option<"):
+        names = {0: "None", 1: "Some"}
+    else:
+        return []
+    vals = [v for v, b in t["targets"] if b == s]
+    if s == t["otherwise"] and not vals:
+        rest = set(names) - {v for v, _ in t["targets"]}
+        if len(rest) != 1:
+            return []
+        want = names[next(iter(rest))]
+    elif len(vals) == 1 and s != t["otherwise"] and vals[0] in names:
+        want = names[vals[0]]
+    else:
+        return []
+    want_success = want in _SUCCESS
+    # the Result / Option whose variant is tested: through Try::branch if that is what the subject is
+    rl, rb, ri = subj, sbb, sidx
+    bd = pv.reaching(subj, sbb, sidx)
+    if len(bd) == 1 and -1 not in bd:
+        _, bbb, bidx, bt = pv._defs[next(iter(bd))]
+        if bidx == "term" and callee_path(bt) == "core::ops::try_trait::Try::branch" and bt["args"] and bt["args"][0]["k"] in ("copy", "move") \
+                and not bt["args"][0]["place"]["p"]:
+            rl, rb, ri = bt["args"][0]["place"]["l"], bbb, "term"
+        elif bidx == "term":
+            return []
+    succ_defs, fail_defs = [], []
+
+    def collect(l, b, i, dep=0):
+        if dep > 8:
+            return False
+        rs = pv.reaching(l, b, i)
+        if -1 in rs:
+            return False
+        for r in rs:
+            _, rbb, ridx, rp = pv._defs[r]
+            if ridx == "term":
+                name = callee_path(rp) or ""
+                if name == "core::ops::try_trait::FromResidual::from_residual" or (name in fn.prog.fns and always_err_fn(fn.prog, name)):
+                    fail_defs.append(rbb)
+                    continue
+                return False
+            if rp["k"] == "aggr" and rp.get("kind") == "adt" and rp.get("variant") in _SUCCESS:
+                succ_defs.append(rbb)
+            elif rp["k"] == "aggr" and rp.get("kind") == "adt" and rp.get("variant") in _FAILURE:
+                fail_defs.append(rbb)
+            elif rp["k"] == "use" and rp["op"]["k"] in ("copy", "move") and not rp["op"]["place"]["p"]:
+                if not collect(rp["op"]["place"]["l"], rbb, ridx, dep + 1):
+                    return False
+            else:
+                return False
+        return True
+    if not collect(rl, rb, ri) or len(succ_defs) + len(fail_defs) < 2:
+        return []
+    hits = succ_defs if want_success else fail_defs
+    if len(hits) != 1:
+        return []
+    return conditions(fn, pv, hits[0], depth + 1)
 
 
 def _materialised(fn, pv, d, s, depth):
